@@ -1297,8 +1297,6 @@ def warm_worker(args):
 # --------------------------------------------------------------------------
 INT_DTYPES = ["int64", "int32", "int16", "uint16", "uint8", "int8"]
 SMALL_INT = ("int16", "uint16", "uint8", "int8")
-LOG_SMALL_INT = "[log scale on 8/16-bit integer data] "
-FINDING_LOG_INT = "C12-log-small-int-dtype"
 
 
 def gen_dtype_case(rng):
@@ -1388,7 +1386,7 @@ def dtype_worker(args):
         case["pdt"] in SMALL_INT
     for k in sorted(out["int"]):
         a, b = out["int"][k], out["float"][k]
-        tag = LOG_SMALL_INT if (small and "log" in k) else ""
+        tag = "[8/16-bit integers] " if small else ""
         if a[0] != b[0] or (a[0] == "exc" and a[1] != b[1]):
             fails.append("%s%s: integer-typed data give %s, the same values "
                          "as float64 give %s" % (tag, k, short(a), short(b)))
@@ -1789,8 +1787,6 @@ def classify(case, fails):
     differs from the reference estimator"""
     if fails and all(f.startswith(TWO_POS) for f in fails):
         return FINDING_TWO_POS
-    if fails and all(f.startswith(LOG_SMALL_INT) for f in fails):
-        return FINDING_LOG_INT
     return None
 
 
